@@ -1,6 +1,7 @@
 package main
 
 import (
+	"sync"
 	"bufio"
 	"bytes"
 	"encoding/hex"
@@ -245,16 +246,45 @@ var (
 	optUM     = fit.WithUnknownMessages()
 )
 
+var (
+	optStdLogger = fit.WithStdLogger()
+	stderrOnce   sync.Once
+)
+
+// parseOpts: "LFM" — L: 0 no logger, 1 WithLogger first, 2 WithLogger last, 3 WithStdLogger first,
+// 4 WithStdLogger last (the order in which options are given must not matter); F unknown fields;
+// M unknown messages.
 func parseOpts(s string) []fit.DecodeOption {
 	var o []fit.DecodeOption
-	if len(s) > 0 && s[0] == '1' {
+	l := byte('0')
+	if len(s) > 0 {
+		l = s[0]
+	}
+	if l == '3' || l == '4' {
+		// the standard logger writes to os.Stderr as it is when the option is applied: silence it
+		stderrOnce.Do(func() {
+			if f, err := os.OpenFile(os.DevNull, os.O_WRONLY, 0); err == nil {
+				os.Stderr = f
+			}
+		})
+	}
+	switch l {
+	case '1':
 		o = append(o, optLogger)
+	case '3':
+		o = append(o, optStdLogger)
 	}
 	if len(s) > 1 && s[1] == '1' {
 		o = append(o, optUF)
 	}
 	if len(s) > 2 && s[2] == '1' {
 		o = append(o, optUM)
+	}
+	switch l {
+	case '2':
+		o = append(o, optLogger)
+	case '4':
+		o = append(o, optStdLogger)
 	}
 	return o
 }
